@@ -47,7 +47,7 @@ theorem pre_sig (v : Vterm) : (if v.state = 2 then (v, ([] : List Byte)) else v.
 
 /-- one key at the terminal against the reference editor: the simulation is
 kept and the callbacks see the same events -/
-theorem vstep (cap depth : Nat) (hd : 1 ≤ depth) (hd2 : depth ≤ 255) (v : Vterm) (r : Ref) (c : Byte)
+theorem vstep (cap depth : Nat) (hd : 1 ≤ depth) (v : Vterm) (r : Ref) (c : Byte)
     (h : VSim cap depth v r) : VSim cap depth (v.key c).1 (r.key cap c).1 ∧ (v.key c).2.2 = (r.key cap c).2 := by
   obtain ⟨hst, hsig, hsim, _, _⟩ := h
   unfold Vterm.key Ref.key
@@ -71,7 +71,7 @@ theorem vstep (cap depth : Nat) (hd : 1 ≤ depth) (hd2 : depth ≤ 255) (v : Vt
     · simp only [Vterm.prologue, Readline.newlineReset]; exact Nat.zero_le _
     · simp only [p_sig, if_true]
   · rw [if_neg hc, if_neg hc]
-    obtain ⟨s1, s2, s3, s4⟩ := rstep cap depth hd hd2 v.nrl r c hsim
+    obtain ⟨s1, s2, s3, s4⟩ := rstep cap depth hd v.nrl r c hsim
     rw [p_rl]
     by_cases hn : (v.nrl.putchar c).2 = RL_NEWLINE
     · -- Enter: execute, then a new line
@@ -117,9 +117,9 @@ theorem win_replicate (n o k : Nat) (v : Byte) (h : o + k ≤ n) : win (List.rep
   rw [List.drop_replicate, List.take_replicate]
   congr 1; omega
 
-theorem init_hist (cap depth : Nat) (hc : 1 ≤ cap) (hd : 1 ≤ depth) (hd2 : depth ≤ 255) :
+theorem init_hist (cap depth : Nat) (hc : 1 ≤ cap) (hd : 1 ≤ depth) :
     HistOK cap depth (Readline.init cap depth) (List.replicate depth []) := by
-  refine ⟨by simp [Readline.init]; omega, by simp only [Readline.init]; omega, by simp [Readline.init],
+  refine ⟨by simp [Readline.init]; omega, rfl, by simp [Readline.init],
     by simp only [Readline.init]; omega, rfl, by simp, ?_⟩
   intro k hk
   have hsl := slot_in (slotIdx 0 depth (k + 1)) depth cap (slotIdx_lt _ _ _ (by omega))
@@ -132,28 +132,28 @@ theorem init_hist (cap depth : Nat) (hc : 1 ≤ cap) (hd : 1 ≤ depth) (hd2 : d
   obtain ⟨c', rfl⟩ : ∃ c', cap = c' + 1 := ⟨cap - 1, by omega⟩
   simp [List.replicate_succ]
 
-theorem init_sim (cap depth : Nat) (hc : 1 ≤ cap) (hd : 1 ≤ depth) (hd2 : depth ≤ 255) (cxx : Bool)
+theorem init_sim (cap depth : Nat) (hc : 1 ≤ cap) (hd : 1 ≤ depth) (cxx : Bool)
     (prompt : List Byte) : VSim cap depth (Vterm.init cap depth cxx prompt) (Ref.init depth) := by
   have hr := reset_sim cap depth (Readline.init cap depth) (Ref.init depth) (init_ok cap hc) rfl
-    (init_hist cap depth hc hd hd2) rfl
+    (init_hist cap depth hc hd) rfl
   refine ⟨Or.inl rfl, rfl, ?_, init_ok cap hc, Nat.zero_le _⟩
   rw [nrl_reset _ (by simp [Vterm.init])]
   exact hr
 
 /-! ### whole key sequences -/
 
-theorem run_sim (cap depth : Nat) (hd : 1 ≤ depth) (hd2 : depth ≤ 255) (v : Vterm) (r : Ref) (ks : List Byte)
+theorem run_sim (cap depth : Nat) (hd : 1 ≤ depth) (v : Vterm) (r : Ref) (ks : List Byte)
     (h : VSim cap depth v r) : VSim cap depth (v.run ks) (r.run cap ks) := by
   induction ks generalizing v r with
   | nil => exact h
-  | cons c cs ih => exact ih _ _ (vstep cap depth hd hd2 v r c h).1
+  | cons c cs ih => exact ih _ _ (vstep cap depth hd v r c h).1
 
-theorem events_sim (cap depth : Nat) (hd : 1 ≤ depth) (hd2 : depth ≤ 255) (v : Vterm) (r : Ref) (ks : List Byte)
+theorem events_sim (cap depth : Nat) (hd : 1 ≤ depth) (v : Vterm) (r : Ref) (ks : List Byte)
     (h : VSim cap depth v r) : v.events ks = r.events cap ks := by
   induction ks generalizing v r with
   | nil => rfl
   | cons c cs ih =>
-    obtain ⟨h1, h2⟩ := vstep cap depth hd hd2 v r c h
+    obtain ⟨h1, h2⟩ := vstep cap depth hd v r c h
     simp only [Vterm.events, Ref.events]
     rw [h2, ih _ _ h1]
 
